@@ -226,6 +226,10 @@ def rewrite(x, rule):
                 return r_abs(nargs[0])
             if name == "ite":
                 return ite(nargs[0], nargs[1], nargs[2])
+            if name in ("gt0", "ge0", "eq0", "ne0") and isinstance(nargs[0], Rat):
+                return Rat.atom(cmp_atom(name[:2].capitalize(), nargs[0], 0))
+            if name in ("and", "or"):
+                nargs = sorted(nargs, key=str)
             return fn_atom(name, *nargs)
         r = rule(None, [], a)
         return _r(r) if r is not None else Rat.atom(a)
@@ -359,7 +363,9 @@ def cmp_atom(op, l, r, integer=False):
         m0 = sorted(d.n)[0]
         if d.n[m0] < 0:
             d = -d
-    return "%s0(%s)" % (op.lower(), d)
+    a = "%s0(%s)" % (op.lower(), d)
+    REG[a] = (op.lower() + "0", [d])
+    return a
 
 
 def ite(cond, a, b):
@@ -440,7 +446,7 @@ class Norm:
                 lt = (self.c.ty(strip(n["l"])) or "").lstrip("&")
                 return Rat.atom(cmp_atom(op, self.norm(n["l"]), self.norm(n["r"]), integer=lt in INT_TYS))
             if op in ("And", "Or"):
-                a, b = sorted([str(self.norm(n["l"])), str(self.norm(n["r"]))])
+                a, b = sorted([self.norm(n["l"]), self.norm(n["r"])], key=str)
                 return fn_atom(op.lower(), a, b)
             l, r = self.norm(n["l"]), self.norm(n["r"])
             ty = (self.c.ty(n) or "").lstrip("&")
